@@ -372,7 +372,9 @@ impl ActorCell {
         let mut pending = vec![self.clone()];
         while let Some(actor) = pending.pop() {
             // We don't need to notify of exit if we're already stopping or stopped.
-            if actor.get_status() <= ActorStatus::Upgrading {
+            // A draining actor is neither: it is still working off its mailbox and
+            // has to go down with its supervisor like any other live descendant.
+            if actor.get_status() <= ActorStatus::Draining {
                 actor.kill();
             }
 
